@@ -54,6 +54,15 @@ def tree(v, p=None, seen=None):
                         out.append(('call', e['callee'], (), 0))
                         for a in e['args']:
                             work.append(a)
+            if x[0] in ('call', 'pcall') and ('rv', id(x)) not in seen_locs:
+                # temporaries handed to the call by reference (`[a, b].concat()`): their values at the time of the call; the
+                # temporary may belong to an expanded helper and be gone from the final memory
+                seen_locs.add(('rv', id(x)))
+                for e in p.events:
+                    if e['k'] == 'call' and e.get('ref_vals') and e['callee'] == x[1] and len(e['args']) == len(x[2]) \
+                            and all(noepoch(strip_upd(a)) == noepoch(strip_upd(b_)) for a, b_ in zip(e['args'], x[2])):
+                        for val in e['ref_vals'].values():
+                            work.append(val)
             if x[0] in ('call', 'pcall', 'boxptr', 'cast'):
                 for i, e in enumerate(p.events):
                     if e['k'] == 'store' and e['loc'][0][0] == 'ext' and ('st', i) not in seen_locs:
